@@ -82,8 +82,12 @@ func TestDrv_C15(t *testing.T) {
 			var httpParts []string
 			for i := 1; i <= n; i++ {
 				httpStart := httpDoc.Len()
+				pad := i % 90
+				if i%41 == 7 { // now and then a header line of several KiB (a token, a cookie): beyond any 4 KiB buffer, within the 64 KiB a line may have
+					pad = []int{4200, 9000, 30000, 60000}[i/41%4]
+				}
 				tg := vegeta.Target{Method: []string{"GET", "POST", "PUT"}[i%3], URL: fmt.Sprintf("http://h.example/t%d", i),
-					Header: http.Header{"X-Id": {strconv.Itoa(i)}, "X-Pad": {strings.Repeat("p", i%90) + "-" + strconv.Itoa(i)}, "X-Tag": {"t" + strconv.Itoa(i)}}}
+					Header: http.Header{"X-Id": {strconv.Itoa(i)}, "X-Pad": {strings.Repeat("p", pad) + "-" + strconv.Itoa(i)}, "X-Tag": {"t" + strconv.Itoa(i)}}}
 				fmt.Fprintf(&httpDoc, "%s %s\nX-Id: %d\nX-Pad: %s\nX-Tag: t%d\n", tg.Method, tg.URL, i, tg.Header["X-Pad"][0], i)
 				if i%4 == 0 {
 					tg.Body = []byte("body:" + strconv.Itoa(i))
